@@ -432,6 +432,7 @@ type caseT struct {
 	Warm          [][2]string // an earlier, different request bound the same way (same type, entry point, options) whose
 	WarmS         []srcCase   // result is then written through (pointers, slices, maps): binds must not share state
 	HasWarm       bool
+	Tmpl          bool      `json:",omitempty"` // the earlier request was bound into a copy of the same pre-filled template: its slices share their backing arrays with the observed destination (p := defaults; QueryTo(q, &p))
 	NT            bool      // carries a boundary / out-of-range / malformed value (for the non-triviality rule)
 	Convs         []int     `json:",omitempty"` // converters registered with the options of the call / of the Binder (convs.go)
 	CallConvs     []int     `json:",omitempty"` // entry B through a Binder: converters registered per call
@@ -608,7 +609,7 @@ func genCase(r *hx.Rand) caseT {
 		if !firstSeen[c.T] {
 			// nothing of this type has been bound in this process yet: several goroutines at once, no earlier request
 			c.Conc = 4
-			c.HasWarm, c.Warm, c.WarmS = false, nil, nil
+			c.HasWarm, c.Warm, c.WarmS, c.Tmpl = false, nil, nil, false
 			c.EvB, c.HasEvC, c.EvC = 0, false, 0
 		}
 	}
@@ -618,7 +619,7 @@ func genCase(r *hx.Rand) caseT {
 	}
 	if c.Conc == 0 && c.HasWarm && (c.Entry == "G" || c.Entry == "T" || c.Entry == "B") && r.Chance(1, 8) {
 		// the bind repeated from several goroutines while others bind the earlier request the same way
-		c.Conc, c.Noise = 3, true
+		c.Conc, c.Noise, c.Tmpl = 3, true, false
 		c.EvB, c.HasEvC, c.EvC = 0, false, 0
 	}
 	return c
@@ -780,6 +781,7 @@ func genCase1(r *hx.Rand) caseT {
 			for _, sc := range c.Srcs {
 				c.WarmS = append(c.WarmS, srcCase{Tag: sc.Tag, KV: genSrc(r, ct.Shapes[sc.Tag], sc.Tag, c.Opts.over(c.Call), &nt, r.Range(2, 7))})
 			}
+			c.Tmpl = c.Prefill != 0 && !c.Gen && r.Chance(1, 2)
 		}
 		return c
 	}
@@ -813,8 +815,32 @@ func genCase1(r *hx.Rand) caseT {
 		c.HasWarm = true
 		var nt bool
 		c.Warm = genSrc(r, ct.Shapes[c.Tag], c.Tag, c.Opts, &nt, r.Range(2, 7))
+		c.Tmpl = c.Prefill != 0 && c.Entry == "T" && r.Chance(1, 2)
 	}
 	return c
+}
+
+// shareSlices makes every slice of dst share the backing array of the corresponding slice of src (two values of
+// one type with equal content, as two prefill walks with one seed build them).
+func shareSlices(dst, src reflect.Value) {
+	if !dst.CanSet() || isFileT(dst.Type()) || opqKind(dst.Type()) >= 0 {
+		return
+	}
+	switch dst.Kind() {
+	case reflect.Slice:
+		dst.Set(src)
+	case reflect.Pointer:
+		if !dst.IsNil() && !src.IsNil() && (dst.Elem().Kind() == reflect.Struct || dst.Elem().Kind() == reflect.Slice) {
+			shareSlices(dst.Elem(), src.Elem())
+		}
+	case reflect.Struct:
+		if dst.Type() == timeT || opqKind(dst.Type()) >= 0 {
+			return
+		}
+		for i := 0; i < dst.NumField(); i++ {
+			shareSlices(dst.Field(i), src.Field(i))
+		}
+	}
 }
 
 // scribble writes through everything a bound value points to: what a handler may do with its request
@@ -1185,7 +1211,7 @@ func prefill(r *hx.Rand, v reflect.Value) {
 			return
 		}
 		n := r.Range(0, 2)
-		s := reflect.MakeSlice(t, n, n)
+		s := reflect.MakeSlice(t, n, n+6) // spare capacity, as a reused / pooled request struct has
 		for i := 0; i < n; i++ {
 			prefill(r, s.Index(i))
 		}
@@ -1859,7 +1885,18 @@ func emit(id string, c caseT, st *hx.Stats) string {
 			if w.Entry != "B" {
 				ws = buildSrc(w.Tag, w.Src)
 			}
-			wres, _, _ := run(ct, &w, ws, ct.E.New())
+			wdest := ct.E.New()
+			if c.Tmpl && c.Prefill != 0 {
+				// a copy of the same template: equal content, slices sharing their backing arrays with the
+				// observed destination (what p := defaults does); nothing is written through afterwards -
+				// whatever the observed destination shows differently from before is the earlier bind's doing
+				prefill(hx.NewRand(c.Prefill), reflect.ValueOf(wdest).Elem())
+				shareSlices(reflect.ValueOf(wdest).Elem(), reflect.ValueOf(dest).Elem())
+			}
+			wres, _, _ := run(ct, &w, ws, wdest)
+			if c.Tmpl {
+				return
+			}
 			if wres != nil {
 				rv := reflect.ValueOf(wres)
 				if rv.Kind() != reflect.Pointer {
@@ -1957,8 +1994,11 @@ func emit(id string, c caseT, st *hx.Stats) string {
 		if c.Prefill != 0 {
 			st.Count("prefilled")
 		}
-		if c.HasWarm {
+		if c.HasWarm && !c.Tmpl {
 			st.Count("earlier_request_scribbled")
+		}
+		if c.Tmpl {
+			st.Count("earlier_request_into_template_copy")
 		}
 		if c.Binder {
 			st.Count("binder_" + c.Entry)
@@ -2354,6 +2394,31 @@ func fixedCases() []caseT {
 				f = true
 				out = append(out, caseT{T: ct.E.Name, Tag: 0, Entry: "G", Opts: optsT{-1, -1, -1, false, false, nil}, Src: [][2]string{{lf.Keys[0] + ".a", "v"}}, NT: true})
 			}
+		}
+	}
+	// the earlier request bound into a copy of the same pre-filled template (shared slice backing arrays): the
+	// observed request lacks the key, so the slice must come out as it went in
+	nt := 0
+	for _, ct := range types {
+		if nt >= 3 {
+			break
+		}
+		for _, lf := range ct.Shapes[0].Leaves {
+			if lf.Kind != "slice" || lf.Nested || strings.Count(lf.Path, ".") != 1 || !strings.ContainsAny(lf.Prim[:1], "iu") {
+				continue
+			}
+			for seed := uint64(1); seed < 200; seed += 2 {
+				d := ct.E.New()
+				prefill(hx.NewRand(seed), reflect.ValueOf(d).Elem())
+				if reflect.ValueOf(d).Elem().FieldByName(lf.Path[1:]).Len() == 0 {
+					continue
+				}
+				nt++
+				out = append(out, caseT{T: ct.E.Name, Tag: 0, Entry: "T", Opts: optsT{-1, -1, -1, false, false, nil}, Prefill: seed,
+					Src: [][2]string{{"x-unrelated", "1"}}, HasWarm: true, Tmpl: true, Warm: [][2]string{{lf.Keys[0], "5"}, {lf.Keys[0], "6"}}, NT: true})
+				break
+			}
+			break
 		}
 	}
 	return out
